@@ -455,6 +455,7 @@ def c18(tier):
     tool += t2
     c3 = logcheck.stream_part(tier, d, verdict, bindir, exe)
     cov.update(c3)
+    cov.update(logcheck.append_only_part(tier, d, verdict, bindir))
     cov['states'] += cov.get('meta_states', 0)
     cov['traces_validated_against_impl'] = c3['traces_validated_against_impl']
     cov['exhaustive'] = True
